@@ -438,6 +438,7 @@ type LoopContract struct {
 }
 
 type FuncContract struct {
+	Atomic   []string // captured variables that may only be accessed through sync/atomic
 	Guarded  []Clause // Label = "Type.field", E = mutex expression: lock discipline
 	Rely     []Clause // two-state relation every interference step of other goroutines satisfies
 	Shared   []string // ghost fields other goroutines may change (havocked at yield points under Rely)
@@ -501,7 +502,7 @@ var keywords = map[string]bool{
 	"func": true, "stub": true, "property": true, "returns": true, "requires": true, "ensures": true,
 	"modifies": true, "inline": true, "trusted": true, "ghost": true, "loop": true, "invariant": true,
 	"decreases": true, "at": true, "lemma": true, "spec": true, "assume": true, "pragma": true, "axiom": true,
-	"before": true, "ghostfield": true, "uses": true, "rely": true, "shared": true, "guarded": true,
+	"before": true, "ghostfield": true, "uses": true, "rely": true, "shared": true, "guarded": true, "atomic": true,
 }
 
 func firstWord(s string) (string, string) {
@@ -770,6 +771,10 @@ func (sp *Specs) ParseSpecFile(path string) error {
 						}
 						cur.Modifies = append(cur.Modifies, c)
 					}
+				}
+			case "atomic":
+				for _, u := range strings.Split(rest, ",") {
+					cur.Atomic = append(cur.Atomic, strings.TrimSpace(u))
 				}
 			case "guarded":
 				// guarded <Type.field> by <expr>: the field may only be accessed while held(<expr>)
